@@ -120,6 +120,7 @@ type EndCli struct {
 func init() {
 	Register(&Scenario{
 		Name:     "connend",
+		LazyToo:  true,
 		DescToo:  true,
 		Property: "C15",
 		Cfg:      vsched.Config{Horizon: 10 * time.Second},
